@@ -588,6 +588,11 @@ class Checker:
                     if before[0][r] == '1': continue
                     marks = [i for i, c in enumerate(x['children']) if before[1][c] == '1']
                     want = marks[0] if marks else 0
+                    if marks:
+                        # C13, judged on the queries alone: the sub-state isResumable() named is the one this resume activates
+                        self.stats['C13.resume-of-a-region-with-a-reported-resumable'] += 1
+                        self.nontrivial['C13.resume'].add((r, want))
+                        if sub != want: self.v('C13', 'resumable|resume-activated-another-sub-state-than-the-one-reported-resumable', op, {'region': r, 'reported': want, 'activated': sub})
                 if sub != want:
                     par = nodes[d]['parent']
                     ign = '|active-destination-directly-under-orthogonal-region' if (par >= 0 and nodes[par]['kind'] == 'O' and before[0][d] == '1') else ''
